@@ -78,6 +78,11 @@ impl HypPciTransport {
             if cap_len < 16 {
                 continue;
             }
+            // Ignore capabilities which claim to extend past the end of the 256 byte configuration
+            // space, so that the register offsets computed below can't overflow.
+            if usize::from(capability.offset) + usize::from(cap_len) > 256 {
+                continue;
+            }
             let struct_info = VirtioCapabilityInfo {
                 bar: root
                     .configuration_access
